@@ -3,7 +3,7 @@ import ast
 import struct
 
 from ..astutil import (U, dotted, get_class, get_method, get_function, methods, walk_local, is_self_attr, call_name, short, enum_member, params, classes, all_functions)
-from ..cfg import CFG
+from ..cfg import CFG, calls_at
 from ..dataflow import ReachingDefs
 from ..factmodel import FactoryModel, AVF
 from ..index import Index
@@ -347,6 +347,76 @@ def check_encoders_have_no_side_effects(ctx):
     if not any(f.rule == 'C01.R9' for f in ctx.findings):
         ctx.ok('C01.R9', 'kmip/core/**', '%d encoders and %d conversion functions assign nothing but self.length / fields of objects they built' % (n_w, n_f))
 
+
+def check_text_decoder_units(ctx, rule='C01.R10', tail=''):
+    """TextString.read_value folded over a length abstraction: the text it stores has exactly one character per value byte."""
+    from ..fold import Folder, AbsStr, AbsBytes, AbsNum, Opaque, Unfoldable, Raised, length_models
+    ctx.rule(rule, 'the text decoder yields exactly one character per value byte: TextString.read_value, folded for every length 0..24 over a length abstraction (the stream hands out as many bytes as are asked for; decode() of n bytes is n characters only for n <= 1 or a single-byte codec), stores a text of exactly `length` characters. The encoder packs one byte per character and the length field counts characters (C02.R6), so a decoder that lets several bytes become one character accepts texts the encoder cannot emit - struct.error when the value is echoed or reported' + tail)
+    pt = ctx.src.tree(PRIM)
+    c = get_class(pt, 'TextString')
+    from ..inline import flat_methods
+    rv = flat_methods(c)[0].get('read_value') or get_method(c, 'read_value')
+    site = '%s:%s TextString.read_value' % (PRIM, rv.lineno)
+    ps = params(rv)
+    consts = {}
+    for st_ in c.body:
+        if isinstance(st_, ast.Assign) and isinstance(st_.targets[0], ast.Name) and isinstance(st_.value, ast.Constant):
+            consts[st_.targets[0].id] = st_.value.value
+    bad = None
+    n_ok = 0
+    try:
+        for L in range(0, 25):
+            f = Folder(models=dict(length_models()), steps=100000)
+            selfv = {'__attrs__': ('value', 'length', 'padding_length') + tuple(consts), 'value': None, 'length': L, 'padding_length': None}
+            selfv.update(consts)
+
+            pos = [0]
+
+            def m_read(k=None, L_=L, pos_=pos):
+                # the first `length` bytes of the stream are the value (abstract), zero padding bytes follow (concrete)
+                if not isinstance(k, int):
+                    raise Unfoldable('read of an unknown size')
+                lo = pos_[0]
+                pos_[0] += k
+                if lo + k <= L_:
+                    return AbsBytes(k)
+                if lo >= L_:
+                    return bytes(k)
+                return AbsBytes(k)          # value and (part of) the padding in one read: abstract as a whole
+            f.models['%s.read' % ps[0]] = m_read
+            f.models['%s.peek' % ps[0]] = m_read
+            env = {'self': selfv, ps[0]: {'__attrs__': ()}, 'sys': {'__attrs__': ('version', 'version_info'), 'version': '3.12', 'version_info': (3, 12)}, 'TextString': dict(consts, __attrs__=tuple(consts))}
+            for p_ in ps[1:]:
+                env[p_] = Opaque('argument')
+            body = [x for x in rv.body if not (isinstance(x, ast.Expr) and isinstance(x.value, ast.Constant))]
+            try:
+                f.run(body, env)
+            except Raised:
+                pass
+            except Unfoldable as ex:
+                # what follows the store of the value (padding checks on bytes that were read together with the value ...) need not be foldable
+                if not isinstance(selfv.get('value'), (str, AbsStr)):
+                    raise
+                ctx.note('%s: TextString.read_value folded up to the store of the value only (%s)' % (rule, ex))
+            v = selfv.get('value')
+            if isinstance(v, str):
+                okl, exact = len(v) == L, True
+            elif isinstance(v, AbsStr) and v.kind == 'str':
+                okl, exact = len(v) == L, v.exact
+            else:
+                raise Unfoldable('value stored is %r' % (v,))
+            if not exact:
+                bad = bad or 'for length %d the stored text comes from one decode() of %d bytes under a multi-byte codec: it has at most, not exactly, %d characters' % (L, L, L)
+            elif not okl:
+                bad = bad or 'for length %d the stored text has %d characters' % (L, len(v))
+            else:
+                n_ok += 1
+    except Unfoldable as ex:
+        raise AnalysisError('unrecognised construct: TextString.read_value cannot be folded over the length abstraction (%s)' % ex)
+    ctx.analysed['text_decoder_lengths_folded'] = n_ok
+    ctx.check(bad is None, rule, 'TextString.read_value|one-character-per-byte', site, 'a decoded text has exactly one character per value byte (lengths 0..24)',
+              'the text decoder does not yield one character per value byte: %s; such a text cannot be encoded again (the encoder packs one byte per character), so a request whose text is echoed or reported later cannot be answered' % bad)
+
 def run(ctx):
     src = ctx.src
     sch = Schema(src)
@@ -522,6 +592,7 @@ def run(ctx):
     check_truthiness(ctx, sch.ix)
     check_lossless_decoders(ctx, pt)
     check_encoders_have_no_side_effects(ctx)
+    check_text_decoder_units(ctx)
 
     # ---------------- R4 factories
     fm = FactoryModel(src, sch.ix)
@@ -600,6 +671,19 @@ def run(ctx):
     uses2 = sorted(set(call_name(c) for c in ast.walk(a2t) if isinstance(c, ast.Call) and (call_name(c) or '').startswith('enums.convert_attribute')))
     ctx.check(uses1 == ['enums.convert_attribute_name_to_tag'] and uses2 == ['enums.convert_attribute_tag_to_name'], 'C01.R5', 'template-attributes-converters|name-tag-table', csite,
               'name->tag one way, tag->name the other, both from attribute_name_tag_table', 'the converters do not translate names and tags through the shared table: %s / %s' % (uses1, uses2))
+    # element-wise: every element of the input list yields exactly one element of the output list (nothing is skipped, nothing ends the loop early)
+    for cfn in (t2a, a2t):
+        cg = CFG(cfn)
+        loops = [n for n in cg.nodes if n.kind == 'loop' and isinstance(n.stmt, ast.For) and isinstance(n.stmt.iter, ast.Attribute) and n.stmt.iter.attr == 'attributes']
+        ctx.need(len(loops) == 1, 'unrecognised construct: %s no longer walks <value>.attributes in one for loop' % cfn.name)
+        head = loops[0]
+        apps = [n for n in cg.nodes if head.stmt in n.loops for c in calls_at(n) if isinstance(c.func, ast.Attribute) and c.func.attr == 'append' and isinstance(c.func.value, ast.Name)]
+        lists = set(c.func.value.id for n in apps for c in calls_at(n) if isinstance(c.func, ast.Attribute) and c.func.attr == 'append')
+        early = [x for x in ast.walk(head.stmt) if isinstance(x, (ast.Break, ast.Return))]
+        every = bool(apps) and len(lists) == 1 and all(cg.all_paths_pass(m_, head, apps, labels_excluded=('exc',)) for m_, l_ in head.succ if l_ == 'T')
+        ctx.check(every and not early, 'C01.R5', '%s|one-output-element-per-input-element' % cfn.name, '%s:%s %s' % (OBJECTS, head.line, cfn.name),
+                  'every iteration over the input attributes that completes appends one converted element; nothing leaves the loop early',
+                  'an iteration over the input attributes can complete without appending the converted element (or the loop is left early): attributes are silently dropped by the conversion, so a payload written under KMIP 2.0 decodes to fewer attributes than it was given')
     tt = attribute_name_tag_table(src)
     ctx.check(len(set(n for n, t in tt)) == len(tt) and len(set(t for n, t in tt)) == len(tt), 'C01.R5', 'attribute_name_tag_table|bijective', 'kmip/core/enums.py attribute_name_tag_table',
               'the name/tag table is a bijection over %d attributes' % len(tt), 'the attribute name/tag table is not a bijection')
